@@ -179,7 +179,7 @@ fn lib_decode_hdr(full: &[u8], wire_order: Option<&[u8]>) -> String {
 const IFACES: &[&str] = &["a.b", "org.freedesktop.DBus", "a.b.c.d.e", "x1._y.z", "bad", "a..b", "1a.b", "a.b\u{e9}"];
 const MEMBERS: &[&str] = &["M", "Ping", "Get_All9", "abcdefgh", "_x", "1bad", "a.b", "", "-Frob", ".Get", " Get", "Ge-t"];
 const PATHS: &[&str] = &["/", "/a", "/org/x_1", "/a/b/c/d", "/0", "/org/0a/7", "/_", "a", "/a/", "//", "/a-b", "/a/.b"];
-const BUSES: &[&str] = &[":1.5", "a.b", "org.x-y.z", ":1.42.7", "a._7", "a", ".a.b", "a.1b", "org.7zip.x", "a.b.2nd"];
+const BUSES: &[&str] = &[":1.5", "a.b", "org.x-y.z", ":1.42.7", "a._7", "a", ".a.b", "a.1b", "org.7zip.x", "a.b.2nd", ":1..5", ":1.", ":.1", "a..b", ":"];
 const ERRS: &[&str] = &["a.b.Err", "org.freedesktop.DBus.Error.Failed", "E", "a.b-c"];
 
 fn pick_name(rng: &mut Prng, pool: &[&str], pad_to: Option<usize>) -> String {
@@ -716,7 +716,7 @@ pub fn run_c06(cfg: &Cfg) {
                 4 => (Ty::Base('s'), s(mostly_valid(rng, "errname", ERRS))),
                 5 => (Ty::Base('u'), Val::Num(*rng.pick(&[1u64, 7, 9, 0xffffffff, 1, 2, 3, 0, 256, 0x01020304, 0x80a1b2c3]))),
                 6 | 7 => (Ty::Base('s'), s(mostly_valid(rng, "bus", BUSES))),
-                8 => (Ty::Base('g'), s(*rng.pick(&["", "s", "a{sv}", "(ii)u"]))),
+                8 => (Ty::Base('g'), s(if rng.chance(1, 6) { *rng.pick(&["a", "ua", "sva", "(", "(i", "a{vs}", "()", "a{s}", "y)"]) } else { *rng.pick(&["", "s", "a{sv}", "(ii)u", "aay", "v"]) })),
                 9 => (Ty::Base('u'), Val::Num(rng.below(3))),
                 _ => unreachable!(),
             };
